@@ -74,6 +74,10 @@ def build(ctx, tier="quick", depth=None):
     a0 = a
     a = s.words(a, "opt:DEF_NUM", [("KW", "DEFAULT"), (N["NUM"], "value")])     # optionally: an earlier DEFAULT clause
     s.eps(a0, a)
+    # optionally: an earlier inline CHECK clause - whatever the lexer remembers of it must not reach the types that follow
+    gt = lm.custom(">", [">", ">=", "<>"], "OP")
+    a1 = s.words(a0, "opt:CHECK", [("KW", "CHECK"), P["("], (ca, "c1"), (gt, "op"), (N["NUM"], "c2"), P[")"]])
+    s.eps(a1, a)
     a = s.words(a, "sep", [P[","]])
     n = s.edge(a, cb, Tag("col", True, "name"))
     O = s.new()
@@ -163,6 +167,7 @@ def build(ctx, tier="quick", depth=None):
     def col(roles, old, words=None):
         raise NotImplementedError
     kinds["opt:COMMENT"] = lambda roles, old: {**old, "comment": roles["value"]}
+    kinds["opt:CHECK"] = lambda roles, old: {**old, "check": T.InOrder([roles["c1"], roles["op"], roles["c2"]])}
     oracle = TypesOracle(s, kinds, base.level, ignore_keys=base.ignore_by_lhs, normalize=T.normalize)
     return s, oracle
 
